@@ -446,6 +446,8 @@ class Unit:
             text = R.r5_unreachable(text, log)
         if 'R10' in rules:
             text = R.r10_byte_strings(text, log)
+        if 'R14' in rules:
+            text = R.r14_split_or_guard(text, log)
         if 'R1' in rules:
             text = R.r1_erase_guards(text, log, 'selfmut' in flags)
             text = R.r1_erase_ctor(text, log)
@@ -484,6 +486,10 @@ class Unit:
         g = self.gen
         if 'noisolation' in flags:
             g.emit('#[verifier::loop_isolation(false)]', dict(tagbase, kind='sig', label=None))
+        if 'nodecreases' in flags:
+            # termination of this function's loops is NOT checked (recorded in the trusted base)
+            g.emit('#[verifier::exec_allows_no_decreases_clause]', dict(tagbase, kind='sig', label=None))
+            self.trusted.append('termination not checked: fn %s (exec_allows_no_decreases_clause)' % path)
         g.emit(sig, dict(tagbase, kind='sig', label=None))
         obl = []
 
